@@ -3,7 +3,8 @@
 // tests/src/internal/lang/preprocessor.cpp does.  One result line per case:
 //   R <line> | <line> | ... #E<n>     the emitted token stream, tokens separated by one space, output lines
 //                                      separated by " | " (empty lines dropped); n = preprocessor_t::errors
-//                                      plus 1 if anything was printed as an error by the expression parser
+//                                      (errors that the expression parser only prints are not counted by the library)
+//   R EXC                              an occa::exception escaped the pipeline
 //   R UB                               the library's own arithmetic hit undefined behaviour (UBSan check or SIGFPE)
 //   R CRASH <how>                      any other abnormal end
 // Crash isolation as in drivers/C14.cpp: cases run in a forked child; the arithmetic UBSan checks of the
@@ -58,25 +59,38 @@ static std::string unescape(const std::string &s) {
   return r;
 }
 
+// One pipeline reused for all cases of a child (as the library's own test does); rebuilt after an
+// abandoned (longjmp'ed) run, whose objects are leaked.
+struct pipeline {
+  tokenizer_t tokenizer;
+  preprocessor_t preprocessor;
+  occa::lang::stream<token_t*> tokenStream;
+  pipeline() : tokenStream(tokenizer.map(preprocessor)) {}
+};
+static pipeline *pipe_ = NULL;
+static std::string currentSource;
+
 static std::string runOne(const std::string &line) {
-  const std::string source = unescape(line);
+  if (!pipe_) pipe_ = new pipeline();
+  currentSource = unescape(line);
   std::ostringstream out;
   if (sigsetjmp(ubJump, 0) != 0) {
     ubArmed = false;
-    return "UB";      // the abandoned pipeline is leaked
+    pipe_ = NULL;     // leaked on purpose: its state is unknown
+    return "UB";
   }
   try {
-    tokenizer_t *tokenizer = new tokenizer_t();
-    preprocessor_t *preprocessor = new preprocessor_t();
-    occa::lang::stream<token_t*> tokenStream = tokenizer->map(*preprocessor);
-    tokenizer->set(source.c_str());
-    preprocessor->clear();
+    pipeline &p = *pipe_;
+    p.tokenizer.set(currentSource.c_str());
+    preprocessor_t *used = (preprocessor_t*) p.tokenStream.getInput("preprocessor_t");
+    if (!used) return "EXC";
+    used->clear();
     ubArmed = true;
     bool lineStart = true;
     bool anyLine = false;
-    while (!tokenStream.isEmpty()) {
+    while (!p.tokenStream.isEmpty()) {
       token_t *token = NULL;
-      tokenStream >> token;
+      p.tokenStream >> token;
       if (!token) break;
       if (token->type() & tokenType::newline) {
         lineStart = true;
@@ -93,18 +107,14 @@ static std::string runOne(const std::string &line) {
       delete token;
     }
     ubArmed = false;
-    // the preprocessor the stream works on is a clone of ours: ask it for its error count
-    int errors = preprocessor->errors;
-    preprocessor_t *used = (preprocessor_t*) tokenStream.getInput("preprocessor_t");
-    if (used) errors = used->errors;
-    out << " #E" << errors;
-    delete tokenizer;
-    delete preprocessor;
+    out << " #E" << used->errors;
   } catch (occa::exception &e) {
     ubArmed = false;
+    pipe_ = NULL;
     return "EXC";
   } catch (std::exception &e) {
     ubArmed = false;
+    pipe_ = NULL;
     return "EXC";
   }
   return out.str();
